@@ -32,43 +32,60 @@ Proof.
   eapply queue_ok_view; eauto.
 Qed.
 
+(* the notified effect: flag up, waker taken and task queued if it was registered *)
+Lemma notify_self_ok (d : decl) (n : node) (rdy rdy' : list nat) (i : nat) (dirty' : bool) :
+  queue_ok_n rdy i d n ->
+  (forall x, In x rdy -> In x rdy') ->
+  (ereg n = true -> In i rdy') ->
+  queue_ok_n rdy' i d
+    (set_ereg (set_eflag (set_edirty n (dirty' || edirty n)) true) false).
+Proof.
+  unfold queue_ok_n, hasrun_n. destruct d as [| | |k b h]; auto. nsimpl.
+  intros Q Hsub Hreg Hal. destruct (Q Hal) as (Q1 & Q2).
+  split; [intros _; left; reflexivity|].
+  intros Hp. destruct (Q2 Hp) as (Hd & Hr & Hf & Hh).
+  split; auto. split.
+  - intros _. destruct (ereg n) eqn:Er; auto.
+  - split; auto. intros Hh'. rewrite (Hh Hh'). apply orb_true_r.
+Qed.
+
 Lemma eff_notify_queue i s : QueueAll s -> QueueAll (eff_notify i s).
 Proof.
   intros Q e. specialize (Q e). unfold GraphInvariant.queue_ok in *.
   unfold eff_notify. destruct (ealive (getn s i)) eqn:Ha; auto.
   set (s1 := updn i (fun n => set_eflag n true) s).
+  destruct (Nat.lt_ge_cases i (nlen s)) as [Hi|Hi].
+  2:{ rewrite getn_oob in Ha by auto. discriminate. }
+  assert (E1 : getn s1 i = set_eflag (getn s i) true) by (apply getn_updn_same; auto).
   destruct (Nat.eq_dec e i) as [->|Hei].
-  - (* the notified effect itself *)
-    destruct (Nat.lt_ge_cases i (nlen s)) as [Hi|Hi].
-    2:{ rewrite getn_oob in Ha by auto. discriminate. }
-    assert (E1 : getn s1 i = set_eflag (getn s i) true) by (apply getn_updn_same; auto).
-    destruct (ereg (getn s1 i)) eqn:Er.
+  - destruct (ereg (getn s1 i)) eqn:Er.
     + rewrite getn_enqueue, getn_updn_same by (unfold s1; rewrite nlen_updn; auto). rewrite E1.
-      unfold queue_ok_n in *. destruct (decl_of p i) as [| | |k b h]; auto. nsimpl.
-      intros Hal Hp. destruct (Q Hal Hp) as (Hd & Hr & Hf & Hdf & Hh).
-      split; [auto|]. split; [intros _; apply in_enqueue_self|]. split; [auto|].
-      split; intros _; left; reflexivity.
+      pose proof (notify_self_ok (decl_of p i) (getn s i) (ready s)
+                   (ready (enqueue i (updn i (fun n => set_ereg n false) s1))) i false Q) as H.
+      cbn [orb] in H.
+      assert (En : set_ereg (set_eflag (set_edirty (getn s i) (edirty (getn s i))) true) false
+                   = set_ereg (set_eflag (getn s i) true) false) by (destruct (getn s i); reflexivity).
+      rewrite En in H. apply H.
+      * intros x Hx. apply in_enqueue. unfold s1. rewrite !ready_updn. exact Hx.
+      * intros _. apply in_enqueue_self.
     + rewrite E1. rewrite E1 in Er. nsimpl.
-      unfold queue_ok_n in *. destruct (decl_of p i) as [| | |k b h]; auto. nsimpl.
-      intros Hal Hp. destruct (Q Hal Hp) as (Hd & Hr & Hf & Hdf & Hh).
-      split; [auto|]. split; [intros _; unfold s1; rewrite ready_updn; apply Hr; exact Er|].
-      split; [intros _; exact Er|]. split; intros _; left; reflexivity.
-  - (* another effect: only the run queue may have grown *)
-    assert (En : forall s', getn (updn i (fun n => set_eflag n true) s') e = getn s' e)
-      by (intros s'; apply getn_updn_other; auto).
+      unfold queue_ok_n, hasrun_n in *. destruct (decl_of p i) as [| | |k b h]; auto. nsimpl.
+      intros Hal. destruct (Q Hal) as (Q1 & Q2). split; [intros _; left; reflexivity|].
+      intros Hp. destruct (Q2 Hp) as (Hd & Hr & Hf & Hh). unfold s1. rewrite ready_updn.
+      split; [auto|]. split; [auto|]. split; [intros _; exact Er|auto].
+  - assert (En : getn s1 e = getn s e) by (unfold s1; apply getn_updn_other; auto).
     destruct (ereg (getn s1 i)).
-    + rewrite getn_enqueue, getn_updn_other by auto. unfold s1. rewrite En.
-      unfold queue_ok_n in *. destruct (decl_of p e); auto. intros Hal Hp.
-      destruct (Q Hal Hp) as (Hd & Hr & Hrest). split; auto. split; auto.
-      intros Hr'. apply in_enqueue. rewrite !ready_updn. auto.
-    + unfold s1. rewrite En, ready_updn. exact Q.
+    + rewrite getn_enqueue, getn_updn_other by auto. rewrite En.
+      unfold queue_ok_n in *. destruct (decl_of p e); auto. intros Hal.
+      destruct (Q Hal) as (Q1 & Q2). split; auto. intros Hp. destruct (Q2 Hp) as (Hd & Hr & Hrest).
+      split; auto. split; auto.
+      intros Hr'. apply in_enqueue. unfold s1. rewrite !ready_updn. auto.
+    + rewrite En. unfold s1. rewrite ready_updn. exact Q.
 Qed.
 
 Lemma eff_mark_dirty_queue i s : QueueAll s -> QueueAll (eff_mark_dirty i s).
 Proof.
   intros Q. unfold eff_mark_dirty. destruct (ealive (getn s i)) eqn:Ha; auto.
-  (* after dirty := true the discipline is broken for i until the notification; prove the two
-     steps together *)
   intros e. unfold GraphInvariant.queue_ok.
   set (s0 := updn i (fun n => set_edirty n true) s).
   destruct (Nat.lt_ge_cases i (nlen s)) as [Hi|Hi].
@@ -83,21 +100,23 @@ Proof.
   destruct (Nat.eq_dec e i) as [->|Hei].
   - destruct (ereg (getn s1 i)) eqn:Er.
     + rewrite getn_enqueue, getn_updn_same by (unfold s1, s0; rewrite !nlen_updn; auto). rewrite E1.
-      unfold queue_ok_n in *. destruct (decl_of p i) as [| | |k b h]; auto. nsimpl.
-      intros Hal Hp. destruct (Q Hal Hp) as (Hd & Hr & Hf & Hdf & Hh).
-      split; [auto|]. split; [intros _; apply in_enqueue_self|]. split; [auto|].
-      split; intros _; left; reflexivity.
+      pose proof (notify_self_ok (decl_of p i) (getn s i) (ready s)
+                   (ready (enqueue i (updn i (fun n => set_ereg n false) s1))) i true Q) as H.
+      cbn [orb] in H. apply H.
+      * intros x Hx. apply in_enqueue. unfold s1, s0. rewrite !ready_updn. exact Hx.
+      * intros _. apply in_enqueue_self.
     + rewrite E1. rewrite E1 in Er. nsimpl.
-      unfold queue_ok_n in *. destruct (decl_of p i) as [| | |k b h]; auto. nsimpl.
-      intros Hal Hp. destruct (Q Hal Hp) as (Hd & Hr & Hf & Hdf & Hh).
-      split; [auto|]. split; [intros _; unfold s1, s0; rewrite !ready_updn; apply Hr; exact Er|].
-      split; [intros _; exact Er|]. split; intros _; left; reflexivity.
+      unfold queue_ok_n, hasrun_n in *. destruct (decl_of p i) as [| | |k b h]; auto. nsimpl.
+      intros Hal. destruct (Q Hal) as (Q1 & Q2). split; [intros _; left; reflexivity|].
+      intros Hp. destruct (Q2 Hp) as (Hd & Hr & Hf & Hh). unfold s1, s0. rewrite !ready_updn.
+      split; [auto|]. split; [auto|]. split; [intros _; exact Er|intros _; reflexivity].
   - assert (En : getn s1 e = getn s e).
     { unfold s1, s0. rewrite !getn_updn_other; auto. }
     destruct (ereg (getn s1 i)).
     + rewrite getn_enqueue, getn_updn_other by auto. rewrite En.
-      unfold queue_ok_n in *. destruct (decl_of p e); auto. intros Hal Hp.
-      destruct (Q Hal Hp) as (Hd & Hr & Hrest). split; auto. split; auto.
+      unfold queue_ok_n in *. destruct (decl_of p e); auto. intros Hal.
+      destruct (Q Hal) as (Q1 & Q2). split; auto. intros Hp. destruct (Q2 Hp) as (Hd & Hr & Hrest).
+      split; auto. split; auto.
       intros Hr'. apply in_enqueue. unfold s1, s0. rewrite !ready_updn. auto.
     + rewrite En. unfold s1, s0. rewrite !ready_updn. exact Q.
 Qed.
@@ -107,14 +126,11 @@ Lemma fold_queue (g : nat -> state -> state) l :
   forall s, QueueAll s -> QueueAll (fold_left (fun a k => g k a) l s).
 Proof. intros Hg. induction l as [|x t IH]; intros s Q; cbn; auto. Qed.
 
-Lemma st_updn_queue i f s : (forall n, nview_eq (set_st n (st (f n))) (f n)) -> QueueAll s -> QueueAll (updn i f s).
+Lemma st_updn_queue i f s : (forall n, qview_eq n (f n)) -> QueueAll s -> QueueAll (updn i f s).
 Proof.
   intros Hf Q e. specialize (Q e). unfold GraphInvariant.queue_ok in *. rewrite ready_updn.
-  destruct (getn_updn_cases i f s e) as [[-> E]|E]; rewrite E; auto.
-  specialize (Hf (getn s e)). unfold nview_eq in Hf. nsimpl.
-  destruct Hf as (E0&E1&E2&E3&E4&E5&E6&E7&E8&E9&E10&E11&E12&E13).
-  unfold queue_ok_n, hasrun_n in *. destruct (decl_of p e) as [| | |k b h]; auto.
-  rewrite E6, E7, E8, E9, E10, E11, E12, E13. exact Q.
+  destruct (getn_updn_cases i f s e) as [[_ E]|E]; rewrite E; auto.
+  eapply queue_ok_qview; eauto.
 Qed.
 
 Lemma mark_check_queue f : forall i s, QueueAll s -> QueueAll (mark_check p f i s).
@@ -124,7 +140,7 @@ Proof.
   - destruct (decl_of p i); auto.
     + apply fold_queue; auto.
       destruct (nstate_eqb _ _); auto.
-      apply st_updn_queue; auto. intros n. unfold nview_eq; nsimpl; intuition.
+      apply st_updn_queue; auto. intros n. unfold qview_eq; nsimpl; intuition.
     + apply eff_notify_queue; auto.
 Qed.
 
@@ -132,7 +148,7 @@ Lemma mark_dirty_queue i s : QueueAll s -> QueueAll (mark_dirty p i s).
 Proof.
   intros Q. unfold mark_dirty. destruct (decl_of p i); auto.
   - apply fold_queue; [intros; apply mark_check_queue; auto|].
-    apply st_updn_queue; auto. intros n. unfold nview_eq; nsimpl; intuition.
+    apply st_updn_queue; auto. intros n. unfold qview_eq; nsimpl; intuition.
   - apply eff_mark_dirty_queue; auto.
 Qed.
 
